@@ -92,6 +92,16 @@ def check_rmi(ctx, rep, cl):
                 rep.fail(cl + ".match-test", fn.name, "inner path does not test `pattern.search(line) is None`: %s" % bp.describe()[:160], wb)
                 continue
             scrub = bp.truth(("compare", ("is",), (idx_t, ("const", None))))
+            if scrub is None and bp.truth(idx_t) is not None:
+                # `if not index:` - the same test as long as no pattern uses group 0 (folded table)
+                try:
+                    from . import pwdtable as _pt
+                    from .report import Report as _R
+                    _pfx, _grps = _pt.load(ctx, _R("scratch", quiet=True), "scratch")
+                    if all(pt.idx is None or pt.idx >= 1 for g_ in _grps for pt in g_):
+                        scrub = not bp.truth(idx_t)
+                except AnalysisError:
+                    pass
             if len(subs) != 1:
                 rep.fail(cl + ".one-substitution", fn.name, "matching path performs %d substitutions" % len(subs), wb)
                 continue
